@@ -152,8 +152,36 @@ def make_init_file(path, c, theta):
     return p / "model_0.pt"
 
 
+SCALER_INITIAL = {"scale": 1024.0, "growth_factor": 2.0, "backoff_factor": 0.5, "growth_interval": 3, "_growth_tracker": 1}
+
+
+@contextlib.contextmanager
+def amp_available():
+    """a "cuda" GradScaler switches itself off when CUDA is missing; make the probe answer "available" (the scaler
+    arithmetic itself works on CPU tensors), so that the engine's OWN scaler carries state with mixed_precision=True"""
+    import torch.cuda.amp.common as common
+
+    real = common.amp_definitely_not_available
+    common.amp_definitely_not_available = lambda: False
+    try:
+        yield
+    finally:
+        common.amp_definitely_not_available = real
+
+
+def scaler_updates(state) -> int:
+    """number of `update()` calls that lead from SCALER_INITIAL to `state` (no overflow in the toy: the scale only grows)"""
+    if not state:
+        return -1
+    import math
+
+    g = SCALER_INITIAL["growth_interval"]
+    doublings = int(round(math.log2(float(state["scale"]) / SCALER_INITIAL["scale"])))
+    return g * doublings + int(state["_growth_tracker"]) - SCALER_INITIAL["_growth_tracker"]
+
+
 def run_vprocess(expdir, c, *, stop=(0, 0, 0), resume=True, init_path=None, swv=False, val_steps=10 ** 6, has_val=True,
-                 main_process=True, aux0=None):
+                 main_process=True, aux0=None, real_scaler=False):
     """One process of the REAL `Engine.train` with a mode-dependent additional model and (optionally) validation data.
     `stop` = (kind, j, p): 0 finish, 1 vanish after j, 2 SIGINT in j (p: 0 before / 1 after backward), 3 crash at point p of
     the periodic save of j, 4 RuntimeError inside `_do_iteration` of j."""
@@ -175,13 +203,19 @@ def run_vprocess(expdir, c, *, stop=(0, 0, 0), resume=True, init_path=None, swv=
     cfg.training.validation_steps = val_steps
     cfg.validation.batch_size = 2
     cfg.validation.crop = None
-    eng = engine_x()(cfg, model, "cpu", aux_model=aux)
+    with amp_available() if real_scaler else contextlib.nullcontext():
+        eng = engine_x()(cfg, model, "cpu", mixed_precision=bool(real_scaler), aux_model=aux)
     eng.events = []
     eng.kill_at = j if kind == 2 else None
     eng.kill_where = "pre" if p == 0 else "post"
     eng.vanish_at = j + 1 if kind == 1 else None
     eng.error_at = j if kind == 4 else None
-    eng._scaler = toy.counting_scaler()
+    if real_scaler:
+        # the scaler the engine built itself (mixed precision): a non-default start state with a short growth interval
+        if eng._scaler.is_enabled():
+            eng._scaler.load_state_dict(dict(SCALER_INITIAL))
+    else:
+        eng._scaler = toy.counting_scaler()
     records = []
 
     def params():
@@ -219,7 +253,9 @@ def run_vprocess(expdir, c, *, stop=(0, 0, 0), resume=True, init_path=None, swv=
     lm = pathlib.Path(expdir) / "last_model.txt"
     latest = int(lm.read_text()) if lm.exists() else -1
     return {"start": eng.started_at, "records": records, "code": code, "last_epoch": s.last_epoch, "w": params(),
-            "latest": latest, "opt_state": o.state_dict()["state"], "scaler": eng._scaler.n_updates,
+            "latest": latest, "opt_state": o.state_dict()["state"],
+            "scaler": scaler_updates(eng._scaler.state_dict()) if real_scaler else eng._scaler.n_updates,
+            "scaler_state": {k: float(v) for k, v in eng._scaler.state_dict().items()} if real_scaler else None,
             "flag": bool(aux.training), "events": eng.events, "opt_lr": o.param_groups[0]["lr"]}
 
 
@@ -253,7 +289,40 @@ def gen_vhistory(rng, k=1, restart=None):
     return c, procs, (val_steps, has_val), theta
 
 
-def run_vhistory(c, procs, val, theta):
+def train_objects() -> list[tuple[str, str]]:
+    """what the REAL `Engine.train` hands to its Checkpointer, with and without mixed precision, and what becomes of each
+    object in `Checkpointer.save`: 'state' (a HasStateDict: serialised), 'meta' (`__x__`: stored as is) or 'dropped' (fails the
+    isinstance filter: silently left out of every checkpoint).  By introspection of a real engine whose training loop is
+    replaced by a no-op."""
+    from typing import get_args
+
+    from direct.types import HasStateDict
+
+    rows: dict[str, str] = {}
+    for mixed in (False, True):
+        c = toy.gen_cfg(__import__("random").Random(1), k=1, T=6, bs=1)
+        model, aux = toy._ToyModel(c["w0"]), ModeAux(c["d"])
+        o = torch.optim.SGD([{"params": model.parameters()}, {"params": aux.parameters()}], lr=0.5)
+        s = toy.make_scheduler(o, c["sched"])
+        with amp_available():
+            eng = engine_x()(toy._make_cfg(6, 1, 2, 1, 0), model, "cpu", mixed_precision=mixed, aux_model=aux)
+        eng.events = []
+        eng.training_loop = lambda *a, **k: None
+        with toy.scratch_dir() as d:
+            try:
+                eng.train(o, s, [toy._ToyDS(c["X"], c["y"])], pathlib.Path(d), num_workers=0)
+            finally:
+                signal.signal(signal.SIGINT, signal.default_int_handler)
+        ck = eng.checkpointer
+        for key, obj in {"model": ck.model, **ck.checkpointables}.items():
+            kind = "meta" if key.startswith("__") and key.endswith("__") else \
+                "state" if isinstance(obj, get_args(HasStateDict)) else "dropped"
+            if rows.get(key) != "dropped":
+                rows[key] = kind
+    return sorted(rows.items())
+
+
+def run_vhistory(c, procs, val, theta, real_scaler=False):
     out = []
     val_steps, has_val = val
     with toy.scratch_dir() as d:
@@ -263,7 +332,7 @@ def run_vhistory(c, procs, val, theta):
         for kind, j, p, res, ini, swv in procs:
             try:
                 out.append(run_vprocess(exp, c, stop=(kind, j, p), resume=bool(res), init_path=init if ini else None,
-                                        swv=bool(swv), val_steps=val_steps, has_val=has_val))
+                                        swv=bool(swv), val_steps=val_steps, has_val=has_val, real_scaler=real_scaler))
             except Exception as e:  # noqa: BLE001 - a process that cannot start
                 out.append({"failed": err_name(e), "detail": repr(e)[:300]})
                 break
